@@ -108,6 +108,11 @@ def TS.active : TS → Bool
   | .running | .stopping _ _ => true
   | _ => false
 
+/-- in its `finally:` / `except CancelledError:` — stopping what it owns -/
+def TS.isStopping : TS → Bool
+  | .stopping _ _ => true
+  | _ => false
+
 inductive SubKind where
   | watcher | peerWatcher | pinger
   deriving DecidableEq, Repr
@@ -174,6 +179,8 @@ inductive Actor where
 structure Cfg where
   fixed : Bool   -- the variant with the edge "failed ensemble task → orchestrator"
   coreWatched : Bool  -- the edge "failed core task → a root task": TRUE is the current tree (since /repo ed52a1a, C20-F6)
+  orchShielded : Bool -- the orchestrator shields the stop of its ensemble from a SECOND cancellation, as `queueing.watcher`
+                      -- shields its depletion: FALSE is the current tree (finding C20-F8), TRUE the proposed repair
   E : Nat        -- settings.queueing.exit_timeout
   W : Nat        -- bound of the peering withdrawal (retries of one PATCH)
   D : Nat        -- bound of one exit stopper: max (cancellation_backoff + cancellation_timeout) over daemons
@@ -218,6 +225,8 @@ structure State where
   killed : Bool                   -- `daemon_killer`'s `finally:` ran (exit stoppers spawned)
   orchErr : Bool                  -- (fixed variant) the orchestrator was cancelled by a failed ensemble task
   t0 : Option Nat                 -- when `run_tasks` began to stop the root tasks
+  abandoned : Bool                -- the orchestrator was cancelled a SECOND time while stopping its ensemble (unshielded variant):
+                                  -- from here on the model does NOT describe the code (finding C20-F8), see `orchAbandon`
   tFail : Option Nat              -- ghost: when the first ESCALATING failure of a task happened (see `markFail`)
   failWho : Option Task           -- ghost: whose failure that was (startup: `startupCleanup`; core task: `coreWatcher`)
   orchStopAt : Option Nat         -- ghost: when the orchestrator began to stop its ensemble
@@ -239,7 +248,7 @@ def init : State :=
   { now := 0, st := initSt, creq := fun _ => false, werr := fun _ => false,
     kind := fun _ => .watcher, nSubs := 0, withdrawn := fun _ => false, gone := fun _ => false,
     wk := fun _ => none, nWorkers := 0, dm := fun _ => .absent, nDaemons := 0,
-    coop := fun _ => false, stopReq := fun _ => false, withdrawnOk := fun _ => false, tFail := none, failWho := none, orchStopAt := none,
+    coop := fun _ => false, stopReq := fun _ => false, withdrawnOk := fun _ => false, abandoned := false, tFail := none, failWho := none, orchStopAt := none,
     core := .waitingFlag, coreCreq := false, started := false, ready := false,
     sc := .init, rt := .waiting, stopFlagSet := false, waiter := true, orphans := 0, killed := false,
     orchErr := false, t0 := none, exitAt := none, result := none,
@@ -283,6 +292,7 @@ inductive Label where
   | orphanEnd
   | act (a : Actor)
   -- run_tasks
+  | orchAbandon
   | rtStopRoots
   | rtCancel
   | rtHungWait
@@ -330,6 +340,15 @@ def grace (cfg : Cfg) (s : State) : Task → Nat
 def cancelRoots (s : State) : Task → Bool
   | .root r => s.creq (.root r) || decide (s.st (.root r) = .running) || decide (s.st (.root r) = .waitingFlag)
   | t => s.creq t
+
+/-- what `run_tasks`' `stop(root tasks)` reaches, per task as in the code: `queueing.watcher` (observers, ensemble watchers)
+    shields its `finally:` and suppresses a second cancellation; `daemon_killer` is cancelled only once (by this very call);
+    the ORCHESTRATOR, however, may already be stopping its ensemble — cancelled by the done-callback of a failed ensemble
+    task — inside an unshielded `await aiotasks.stop(...)`: unless the variant `orchShielded`, the second cancellation reaches it -/
+def cancelRootsV (cfg : Cfg) (s : State) : Task → Bool :=
+  if cfg.orchShielded then cancelRoots s
+  else upd (cancelRoots s) (.root .orchestrator)
+    (cancelRoots s (.root .orchestrator) || (s.st (.root .orchestrator)).isStopping)
 
 /-- the orchestrator's `stop(ensemble tasks)` -/
 def cancelSubs (s : State) : Task → Bool
@@ -720,13 +739,22 @@ def step (cfg : Cfg) (s : State) : Label → Option State
         if 0 < s.orphans then some { s with acts := s.acts + 1 } else none
     else none
   -- ---------------------------------------------------------------- run_tasks
+  | .orchAbandon =>
+    -- the second cancellation interrupts the orchestrator's `await aiotasks.stop(ensemble tasks)`: it ends CANCELLED at once,
+    -- its ensemble is orphaned, the recorded `task_error` is dropped. From here on the model does not follow the code
+    -- (the labels stay enabled as if the stop had been shielded; every theorem about what happens next is guarded by
+    -- `abandoned = false`, and the trace comparison stops at this label): finding C20-F8.
+    if s.rt ≠ .exited ∧ cfg.orchShielded = false ∧ (s.st (.root .orchestrator)).isStopping = true
+        ∧ s.creq (.root .orchestrator) = true then
+      some { s with abandoned := true, creq := upd s.creq (.root .orchestrator) false }
+    else none
   | .rtStopRoots =>
     if s.rt = .waiting ∧ anyRootEnded s = true then
-      some { s with rt := .stoppingRoots, creq := cancelRoots s, t0 := some s.now }
+      some { s with rt := .stoppingRoots, creq := cancelRootsV cfg s, t0 := some s.now }
     else none
   | .rtCancel =>
     if s.rt = .waiting then
-      some { s with rt := .cStoppingRoots, creq := cancelRoots s, t0 := some s.now }
+      some { s with rt := .cStoppingRoots, creq := cancelRootsV cfg s, t0 := some s.now }
     else none
   | .rtHungWait =>
     if s.rt = .stoppingRoots ∧ allRootsEnded s = true then
@@ -771,9 +799,23 @@ def headScanCancelsChildren : Bool := true
     (repair of finding C20-F6; before it a failed credentials retriever was only logged) -/
 def headWatchesCore : Bool := true
 
+/-- the orchestrator's `except CancelledError:` shields the stop of its ensemble (`asyncio.shield` in a loop, as in
+    `queueing.watcher`): the variant `cfg.orchShielded`. FALSE of the current tree (finding C20-F8: a stream failure followed
+    by a stop request double-cancels the orchestrator) -/
+def headShieldsStop : Bool := false
+
 /-- the configuration of the model of the current tree -/
 def headCfg (e w d c h : Nat) : Cfg :=
-  { fixed := headEscalates, coreWatched := headWatchesCore, E := e, W := w, D := d, C := c, H := h }
+  { fixed := headEscalates, coreWatched := headWatchesCore, orchShielded := headShieldsStop,
+    E := e, W := w, D := d, C := c, H := h }
+
+/-- the sum of the grace periods of the tasks' `finally:` blocks: depletion, withdrawal, exit stoppers -/
+def G (cfg : Cfg) : Nat := cfg.E + cfg.W + cfg.D
+
+/-- A label that is API activity / a handler call of some task. -/
+def Label.isActivity : Label → Bool
+  | .act _ | .withdraw _ _ => true
+  | _ => false
 
 /-- Replay a label list. -/
 def run (cfg : Cfg) : State → List Label → Option State
@@ -826,6 +868,7 @@ def internal (s : State) : Label → Bool
   | .workerEnd _ how => how != .failed
   | .daemonExit _ | .waiterEnd | .orphanEnd => true
   | .rtStopRoots | .rtHungWait | .rtStopHung | .rtCStopHung | .rtExit _ => true
+  | .orchAbandon => true
   | _ => false
 
 /-- a cooperative run of internal steps only -/
